@@ -611,6 +611,9 @@ def py_rules(ck, table):
         ok_t = isinstance(tgt, ast.Subscript) and isinstance(tgt.slice, ast.Name) and tgt.slice.id == iv and is_arr_of(tgt.value, dp)
         ck.ob(R, ref, x, ok_t, "the result byte i is stored at index i of the (copy of the) data array")
         rets = [n for n in q.walk_body(ref.node) if isinstance(n, ast.Return)]
+        for r_ in rets:  # a returned explaining local stands for its single definition
+            if isinstance(r_.value, ast.Name) and src_of(r_.value.id) is not None and r_.value.id not in ps:
+                r_.value = src_of(r_.value.id)
         okr = len(rets) == 1 and isinstance(rets[0].value, ast.Call) and isinstance(rets[0].value.func, ast.Attribute) and rets[0].value.func.attr in ("tobytes",) and isinstance(tgt, ast.Subscript) and q.dotted(rets[0].value.func.value) == q.dotted(tgt.value)
         okr = okr or (len(rets) == 1 and q.is_call(rets[0].value, "bytes") and isinstance(tgt, ast.Subscript) and q.dotted(rets[0].value.args[0]) == q.dotted(tgt.value))
         ck.ob(R, ref, x, okr, "the reference returns the bytes of the array it filled")
